@@ -292,7 +292,8 @@ def loops_complete(ck, ctx, rule, table):
             seen_h.add(h)
             bad = loop_no_early_exit(ctx, b, bb)
             errs = {eb for eb, _ in err_return_blocks(ctx, b)}
-            bad = [e_ for e_ in (bad or []) if not (errs and all(r_ in errs for r_ in (set(cfg.returns()) & cfg.reach_avoid([e_[2]]))))]
+            # an exit that can only end in an error return is fine (errs = the blocks that build the Err value)
+            bad = [e_ for e_ in (bad or []) if not (errs and e_[2] not in errs and not (set(cfg.returns()) & cfg.reach_avoid([e_[2]], avoid_blocks=list(errs))) or e_[2] in errs)]
             ck.ob(rule, "%s|loop-complete|%s#%d" % (fn, anchor.split("::")[-1], len(seen_h) - 1), bad == [], "the loop over %s in %s ends only at exhaustion or with an error (other exits: %s)" % (what, fn.split("::")[-1], bad), span=b.blocks[bb]["term"]["loc"], fn=fn)
         ck.functions.add(fn)
 
